@@ -1,4 +1,5 @@
-// gsworld prints world idx of a property (developer aid).
+// gsworld prints world idx of a property (developer aid); with -minn it lists the indices below -to of the
+// worlds whose first task declares at least that many variables.
 package main
 
 import (
@@ -14,7 +15,18 @@ func main() {
 	seed := flag.Uint64("seed", 1, "")
 	idx := flag.Int("idx", 0, "")
 	tier := flag.String("tier", "quick", "")
+	minn := flag.Int("minn", 0, "")
+	to := flag.Int("to", 0, "")
 	flag.Parse()
+	if *minn > 0 {
+		for i := 0; i < *to; i++ {
+			w := gen.World(*prop, *seed, i, *tier)
+			if len(w.Tasks) > 0 && w.Tasks[0].N >= *minn {
+				fmt.Println(i, w.Tasks[0].N, len(w.Tasks[0].Clauses), w.Tasks[0].Argv, w.Sched.Strategy, w.Sched.Burst)
+			}
+		}
+		return
+	}
 	w := gen.World(*prop, *seed, *idx, *tier)
 	b, _ := json.Marshal(w)
 	fmt.Println(string(b))
